@@ -1,10 +1,197 @@
 import PhysisModel.Base.Proto
+import PhysisModel.Model.Cmp
+import PhysisModel.Spec.Cmp
+import PhysisModel.Model.Tera
+import PhysisModel.Spec.Tera
+import PhysisModel.Model.Layer
+import PhysisModel.Spec.Layer
+import PhysisModel.Model.Pbd
+import PhysisModel.Spec.Pbd
 namespace Physis.Driver.C16
 open Physis Physis.Proto
 
+/-! ### field parsing (malformed ⇒ `none` ⇒ `bad-case`) -/
+
+def items (sep : String) (s : String) : List String := if s == "-" then [] else s.splitOn sep
+
+def u32? (s : String) : Option UInt32 := do
+  let n ← s.toNat?
+  if n < 2 ^ 32 then some (UInt32.ofNat n) else none
+
+def u16? (s : String) : Option UInt16 := do
+  let n ← s.toNat?
+  if n < 2 ^ 16 then some (UInt16.ofNat n) else none
+
+def u32List? (s : String) : Option (List UInt32) := (items "," s).mapM u32?
+
+def pair? {α} (f : String → Option α) (s : String) : Option (α × α) :=
+  match s.splitOn ":" with
+  | [a, b] => do some (← f a, ← f b)
+  | _ => none
+
+def join (sep : String) (l : List String) : String := if l.isEmpty then "-" else sep.intercalate l
+
+def showOutcome {α} (f : α → String) : Outcome α → String
+  | .ok v => "some " ++ f v
+  | .none => "none"
+  | .panic => "panic"
+  | .diverges => "diverges"
+  | .unmodelled => "unmodelled"
+
+/-! ### cmp -/
+
+def cycleTo (pat : Bytes) (n : Nat) : Bytes :=
+  if pat.isEmpty then List.replicate n 0 else
+  let reps := n / pat.length + 1
+  ((List.replicate reps pat).flatten).take n
+
+def showRows (rows : List (List UInt32)) : String :=
+  join ";" (rows.map fun r => join "," (r.map fun w => toString w.toNat))
+
+def cmpCase (pat rows tail : String) : Option String := do
+  let pat ← Bytes.ofHexFast pat
+  let rows ← (items ";" rows).mapM u32List?
+  let tail ← Bytes.ofHexFast tail
+  let f : Spec.Cmp.File := ⟨cycleTo pat Spec.Cmp.headerSize, rows, tail⟩
+  if !(decide (Spec.Cmp.WF f)) then none
+  let file := Spec.Cmp.encode f
+  pure (answer ("cmp " ++ Bytes.toHex file) ("some " ++ showRows f.rows) []
+    (some (showOutcome showRows (Cmp.fromExisting file))))
+
+/-! ### tera -/
+
+def showPlate (x y : UInt32) (name : Bytes) : String :=
+  toString x.toNat ++ ":" ++ toString y.toNat ++ ":" ++ Bytes.toHex name
+
+def showSpecPlates (l : List Spec.Tera.Plate) : String := join "," (l.map fun p => showPlate p.x p.y p.filename)
+def showModelPlates (l : List Tera.PlateModel) : String := join "," (l.map fun p => showPlate p.x p.y p.filename)
+def showOpt {α} (f : α → String) : Option α → String
+  | some v => "some " ++ f v
+  | none => "none"
+
+def teraParse (version ps clip unk positions : String) : Option String := do
+  let f : Spec.Tera.File := ⟨← u32? version, ← u32? ps, ← u32? clip, ← u32? unk, ← (items "," positions).mapM (pair? u16?)⟩
+  let file := Spec.Tera.encode f
+  -- the specification only speaks about exactly representable plate centres
+  let exp ← Spec.Tera.plates f
+  pure (answer ("tera_parse " ++ Bytes.toHex file) ("some " ++ showSpecPlates exp) []
+    (some (showOpt showModelPlates (Tera.fromExisting file))))
+
+/-- write → read of a terrain on the 128-unit grid -/
+def teraRoundtrip (positions : String) : Option String := do
+  let ps ← (items "," positions).mapM (pair? u16?)
+  let plates := Spec.Tera.gridPlates ps
+  let input := join "," (plates.map fun p => toString p.x.toNat ++ ":" ++ toString p.y.toNat)
+  let m := Tera.fromExisting (Tera.writeToBuffer (plates.map fun p => ⟨p.x, p.y, p.filename⟩))
+  pure (answer ("tera_rt " ++ input) ("some " ++ showSpecPlates plates) [] (some (showOpt showModelPlates m)))
+
+/-- the writer alone on a grid terrain: the documented layout -/
+def teraWriteGrid (positions : String) : Option String := do
+  let ps ← (items "," positions).mapM (pair? u16?)
+  let plates := Spec.Tera.gridPlates ps
+  let input := join "," (plates.map fun p => toString p.x.toNat ++ ":" ++ toString p.y.toNat)
+  let exp := Spec.Tera.encode ⟨0x1000003, 128, 0, 0x3F800000, ps⟩
+  let m := Tera.writeToBuffer (plates.map fun p => ⟨p.x, p.y, p.filename⟩)
+  pure (answer ("tera_write " ++ input) (Bytes.toHex exp) [] (some (Bytes.toHex m)))
+
+/-- conformance of the float model only (arbitrary f32 bit patterns; the property does not say what
+the writer does off the grid): expected = model, tagged `triv` -/
+def teraWriteAny (positions : String) : Option String := do
+  let ps ← (items "," positions).mapM (pair? u32?)
+  let m := Tera.writeToBuffer (ps.map fun p => ⟨p.1, p.2, []⟩)
+  pure (answer "=" (Bytes.toHex m) ["triv", "float-model"] (some (Bytes.toHex m)))
+
+/-! ### empty layer groups -/
+
+def showGroupS (g : Spec.Layer.EmptyGroup) : String :=
+  s!"{g.fileId.toNat} {g.chunkId.toNat} {g.layerGroupId.toNat} {Bytes.toHex g.name}"
+def showGroupM (g : Layer.Group) : String :=
+  s!"{g.fileId.toNat} {g.chunkId.toNat} {g.layerGroupId.toNat} {Bytes.toHex g.name}"
+
+def layerGroup? (a b c name : String) : Option Spec.Layer.EmptyGroup := do
+  let g : Spec.Layer.EmptyGroup := ⟨← u32? a, ← u32? b, ← u32? c, ← Bytes.ofHexFast name⟩
+  if decide (Spec.Layer.WF g) then some g else none
+
+def bindOutcome {α β} (o : Outcome α) (f : α → Outcome β) : Outcome β :=
+  match o with
+  | .ok v => f v
+  | .none => .none
+  | .panic => .panic
+  | .diverges => .diverges
+  | .unmodelled => .unmodelled
+
+def layerCase (op a b c name : String) : Option String := do
+  let g ← layerGroup? a b c name
+  let gm : Layer.Group := ⟨g.fileId, g.chunkId, g.layerGroupId, g.name⟩
+  match op with
+  | "layer_parse" =>
+    let file := Spec.Layer.encode g
+    pure (answer ("layer_parse " ++ Bytes.toHex file) ("some " ++ showGroupS g) []
+      (some (showOutcome showGroupM (Layer.fromExisting file))))
+  | "layer_write" =>
+    pure (answer "=" ("some " ++ Bytes.toHex (Spec.Layer.encode g)) []
+      (some (showOutcome Bytes.toHex (Layer.writeToBuffer gm))))
+  | "layer_rt" =>
+    pure (answer "=" ("some " ++ showGroupS g) []
+      (some (showOutcome showGroupM (bindOutcome (Layer.writeToBuffer gm) Layer.fromExisting))))
+  | _ => none
+
+/-! ### pbd -/
+
+def bone? (s : String) : Option Spec.Pbd.Bone :=
+  match s.splitOn "/" with
+  | [n, m] => do some ⟨← Bytes.ofHexFast n, ← u32List? m⟩
+  | _ => none
+
+def item? (s : String) : Option Spec.Pbd.Item :=
+  match s.splitOn ":" with
+  | [b, l, bones] => do some ⟨← u16? b, ← u16? l, ← (items "+" bones).mapM bone?⟩
+  | _ => none
+
+def link? (s : String) : Option Spec.Pbd.Link :=
+  match s.splitOn ":" with
+  | [p, f, n, d] => do some ⟨← u16? p, ← u16? f, ← u16? n, ← u16? d⟩
+  | _ => none
+
+def showBonesS (l : List Spec.Pbd.Bone) : String :=
+  join "+" (l.map fun b => Bytes.toHex b.name ++ "/" ++ join "," (b.deform.map fun w => toString w.toNat))
+def showBonesM (l : List Pbd.Bone) : String :=
+  join "+" (l.map fun b => Bytes.toHex b.name ++ "/" ++ join "," (b.deform.map fun w => toString w.toNat))
+
+def pbdCase (its lks fromS toS : String) : Option String := do
+  let f : Spec.Pbd.File := ⟨← (items ";" its).mapM item?, ← (items ";" lks).mapM link?⟩
+  let a ← u16? fromS
+  let b ← u16? toS
+  if !(decide (Spec.Pbd.WFTree f) && decide (Spec.Pbd.WFLayout f)) then none
+  let file := Spec.Pbd.encode f
+  let model := match Pbd.fromExisting file with
+    | .ok h => showOutcome showBonesM (Pbd.getDeformMatrices h a b)
+    | o => "file-" ++ showOutcome (fun _ => "") o
+  let input := s!"pbd {Bytes.toHex file} {a.toNat} {b.toNat}"
+  if a == b then pure (answer input "none" ["triv"] (some model)) else
+  match Spec.Pbd.findItem f a with
+  | none => pure (answer input "none" ["triv"] (some model))
+  | some start =>
+    if decide (Spec.Pbd.HasSibling f start) then
+      match Spec.Pbd.deformBones f start b with
+      | some bones => pure (answer input ("some " ++ showBonesS bones) [] (some model))
+      | none => none
+    else
+      -- a start node without sibling link: undocumented, left unconstrained by the property
+      pure (answer input model ["triv", "no-sibling"] (some model))
+
 /-- one case line in, one answer line out (see `Base/Proto.lean`) -/
 def handle (line : String) : String :=
-  match fields line with
-  | _ => bad
+  let r : Option String :=
+    match fields line with
+    | ["cmp", pat, rows, tail] => cmpCase pat rows tail
+    | ["tera_parse", v, ps, clip, unk, positions] => teraParse v ps clip unk positions
+    | ["tera_rt", positions] => teraRoundtrip positions
+    | ["tera_write", positions] => teraWriteGrid positions
+    | ["tera_wany", positions] => teraWriteAny positions
+    | ["pbd", its, lks, a, b] => pbdCase its lks a b
+    | [op, a, b, c, name] => layerCase op a b c name
+    | _ => none
+  r.getD bad
 
 end Physis.Driver.C16
